@@ -90,7 +90,7 @@ def gen_value(rng: random.Random, tricky: float, depth: int = 0):
     if depth >= 3 or r < 0.45:
         return gen_string(rng, tricky)
     if r < 0.55:
-        return rng.choice([0, 1, -1, 7, 123456789, 1.5, -0.25, True, False, None, 1.0, 0.0, 2**63, -(2**63) - 1, 10**30, 1e22, 1e-7, 123456789.125])
+        return rng.choice([0, 1, -1, 7, 123456789, 1.5, -0.25, True, False, None, 1.0, 0.0, -0.0, 5e-324, 1.7976931348623157e308, 0.1 + 0.2, 2**53 + 1, -(2**53) - 1, 2**63, -(2**63) - 1, 10**30, 1e22, 1e-7, 123456789.125])
     if r < 0.78:
         return [gen_value(rng, tricky, depth + 1) for _ in range(rng.choice([0, 1, 2, 3]))]
     d = {}
@@ -1285,6 +1285,8 @@ def _same_types(a, b) -> bool:
         return a.keys() == b.keys() and all(_same_types(a[k], b[k]) for k in a)
     if isinstance(a, list):
         return len(a) == len(b) and all(_same_types(x, y) for x, y in zip(a, b))
+    if isinstance(a, float):
+        return repr(a) == repr(b)  # -0.0 is not 0.0; every float must come back bit for bit
     return a == b
 
 
